@@ -45,6 +45,20 @@ class SourceSeg(Segment):
             return VAw(z3.Const(sym.fresh_name('_run_coro'), sym.Aw))
         d[self.cls + '._run'] = _run
         d['Source._run'] = _run
+
+        def seek(I, recv, args, kwargs):
+            g = I.st.ghost
+            g['seeks'] = VInt(g.get('seeks', VInt(0)).t + 1)
+            return NONE
+        d['File.seek'] = seek
+
+        def base_init(I, recv, args, kwargs):
+            if recv is None:
+                recv, args = args[0], args[1:]
+            I.set_attr(recv, 'loop', VRef(z3.Const('loop', sym.Obj), 'IOLoop'))
+            I.st.ghost['base_init_kwargs'] = VTuple([VStr(k) for k in sorted(kwargs) if k != '**'])
+            return NONE
+        d['Stream.__init__'] = base_init
         return d
 
     def spec_funcs(self):
@@ -75,6 +89,11 @@ class SourceStart(SourceSeg):
         f = SourceSeg.make_self(self, I)
         if self.cls == 'from_iterable':
             f['_iterable'] = VSeq(z3.Const('iterable0', sym.SeqElemS), K_ELEM)
+        if self.cls == 'from_textfile':
+            f['file'] = VRef(z3.Const('file', sym.Obj), 'File')
+            f['from_end'] = VBool(z3.Bool('from_end'))
+            f['buffer'] = sym.VString(z3.String('buffer0'))
+        I.st.ghost['seeks'] = VInt(0)
         return f
 
     def unchanged_clause(self):
@@ -99,7 +118,30 @@ class SourceStart(SourceSeg):
                    text='implies(not old(self.stopped), schedules_run() == 0 and not self.stopped)'),
             Clause('C18.start_schedules_exactly_one_loop', ['C18'], when='return',
                    text='implies(old(self.stopped), schedules_run() == 1 and not self.stopped)'),
+            Clause('C18.start_of_a_started_source_does_not_move_the_read_position', ['C18', 'C17'], when='return',
+                   text='implies(not old(self.stopped), seeks == 0)',
+                   note='a redundant start() (e.g. through a downstream node) must not skip unread data'),
         ]
+
+
+class SourceInit(SourceSeg):
+    """Source.__init__(start=...): with start=True the source IS started when the constructor returns (a stop() right after it
+    must find a started source), with start=False nothing is scheduled."""
+    method = '__init__'
+    props = ['C18']
+    name = 'Source.__init__'
+    reentrancy_generic = False
+
+    def make_locals(self, I, selfv):
+        return {'self': selfv, 'start': VBool(z3.Bool('start_arg')), 'kwargs': VStr('__kwargs__')}
+
+    def clauses(self):
+        return [Clause('C18.start_true_starts_before_the_constructor_returns', ['C18'], when='return',
+                       text='implies(start, not self.stopped and self.started and schedules_run() == 1)',
+                       note='history [construct with start=True, stop()]: stop must see a started source'),
+                Clause('C18.start_false_schedules_nothing', ['C18'], when='return',
+                       text='implies(not start, self.stopped and not self.started and schedules_run() == 0 and len(callbacks) == 0)'),
+                Clause('C19.source_asks_for_an_io_loop', ['C18', 'C19'], when='return', text="'ensure_io_loop' in base_init_kwargs")]
 
 
 class SourceStop(SourceSeg):
@@ -224,5 +266,5 @@ SUBCLASS_LIFECYCLE = [_per_source(b, c) for c in ('from_iterable', 'from_periodi
 for _c in SUBCLASS_LIFECYCLE:
     globals()[_c.__name__] = _c
 
-ALL = SUBCLASS_LIFECYCLE + [SourceStart, SourceStop, SourceRunHead, SourceRunAfterCycle, FromIterableRun, FromIterableRunResumed,
+ALL = SUBCLASS_LIFECYCLE + [SourceInit, SourceStart, SourceStop, SourceRunHead, SourceRunAfterCycle, FromIterableRun, FromIterableRunResumed,
        FromPeriodicRun, FromPeriodicRunSleep]
